@@ -522,3 +522,41 @@ func specHexLower(x byte, j int) byte {
 //@ loop 1 invariant [C08.hex.line] len(w.buf) < 78 && len(w.buf) % 2 == 0
 //@ loop 1 back-when [C08.hex.pending] len(w.buf) > 0 ==> len(w.buf) == prev(len(w.buf)) + 2 && w.buf[len(w.buf)-2] == specHexLower(c, 0) && w.buf[len(w.buf)-1] == specHexLower(c, 1) && opos() == prev(opos()) && (forall j :: 0 <= j && j < prev(len(w.buf)) ==> w.buf[j] == prev(w.buf[j]))
 //@ loop 1 back-when [C08.hex.flushed] len(w.buf) == 0 ==> prev(len(w.buf)) == 76 && opos() == prev(opos()) + 79 && (forall j :: 0 <= j && j < 76 ==> otape(prev(opos()) + j) == prev(w.buf[j])) && otape(prev(opos()) + 76) == specHexLower(c, 0) && otape(prev(opos()) + 77) == specHexLower(c, 1) && otape(prev(opos()) + 78) == 10
+
+// C08, eexec stream writer over the ghost output tape (Type 1 book 7.1): what
+// flush hands to the underlying writer is the eexec encryption of the
+// buffered plaintext starting from the running key state w.R, and w.R becomes
+// the state after those bytes; Write buffers the plaintext in order.
+// specEEByte(r0, p, k): k-th cipher byte when p is encrypted from state r0.
+func specEEByte(r0 uint16, p []byte, k int) byte {
+	return p[k] ^ byte(specEE(r0, p, k)>>8)
+}
+
+//@ func (*eexecWriter).flush
+//@ ensures [C08.eexec.tape] result == nil ==> opos() == old(opos()) + old(w.pos) && w.R == old(specEE(w.R, w.buf, w.pos)) && (forall k :: 0 <= k && k < old(w.pos) ==> otape(old(opos()) + k) == old(specEEByte(w.R, w.buf, k)))
+//@ loop 1 invariant [C08.eexec.tape] opos() == old(opos()) && (forall k :: 0 <= k && k < i ==> w.buf[k] == old(specEEByte(w.R, w.buf, k)))
+
+//@ func (*eexecWriter).Write
+//@ ensures [C08.eexec.small] old(w.pos) + len(p) < len(w.buf) && result1 == nil ==> w.pos == old(w.pos) + len(p) && w.R == old(w.R) && opos() == old(opos()) && (forall j :: 0 <= j && j < len(p) ==> w.buf[old(w.pos) + j] == old(p[j]))
+//@ loop 1 invariant [C08.eexec.small] old(w.pos) + len(old(p)) < len(w.buf) ==> w.R == old(w.R) && opos() == old(opos()) && sameslice(w.buf, old(w.buf)) && ((n == 0 && w.pos == old(w.pos) && sameslice(p, old(p)) && (forall j :: 0 <= j && j < len(p) ==> p[j] == old(p[j]))) || (n == len(old(p)) && len(p) == 0 && w.pos == old(w.pos) + n && (forall j :: 0 <= j && j < n ==> w.buf[old(w.pos) + j] == old(p[j]))))
+//@ loop 1 back-when [C08.eexec.buffered] w.pos > 0 ==> n - prev(n) == w.pos - prev(w.pos) && opos() == prev(opos()) && w.R == prev(w.R) && (forall j :: 0 <= j && j < w.pos - prev(w.pos) ==> w.buf[prev(w.pos) + j] == prev(p[j])) && (forall j :: 0 <= j && j < prev(w.pos) ==> w.buf[j] == prev(w.buf[j]))
+
+// The encrypted portion starts with four lead bytes (Type 1 book 7.2): the
+// first cipher byte is not white space and one of the first four cipher bytes
+// is not a hexadecimal digit, so that a reader takes the section for binary
+// eexec data.  After newEExecWriter the four lead bytes are buffered, nothing
+// has been written yet and the key is still the initial eexec key 55665.
+func specEEWhite(c byte) bool {
+	return c == ' ' || c == '\t' || c == '\r' || c == '\n'
+}
+
+func specEEHex(c byte) bool {
+	return c >= '0' && c <= '9' || c >= 'A' && c <= 'F' || c >= 'a' && c <= 'f'
+}
+
+//@ func newEExecWriter
+//@ ensures [C08.eexec.lead] result1 == nil ==> result0.pos == 4
+//@ ensures [C08.eexec.lead] result1 == nil ==> result0.R == 55665
+//@ ensures [C08.eexec.lead] result1 == nil ==> opos() == old(opos())
+//@ ensures [C08.eexec.lead] result1 == nil ==> !specEEWhite(specEEByte(55665, result0.buf, 0))
+//@ ensures [C08.eexec.lead] result1 == nil ==> !specEEHex(specEEByte(55665, result0.buf, 0)) || !specEEHex(specEEByte(55665, result0.buf, 1)) || !specEEHex(specEEByte(55665, result0.buf, 2)) || !specEEHex(specEEByte(55665, result0.buf, 3))
